@@ -30,13 +30,18 @@ CONSTANTS Items,      \* alphabet of item records
           Fillers,    \* items that may be followed by further items (all of Items unless a run focuses on one item)
           MaxItems, MinItems, MaxDepth, Deviation
 
-NoDoc == [kind |-> "none", q |-> "d3", opn |-> "own", cls |-> "own", lead |-> 0, nblk |-> 0, inlead |-> 0, nsrc |-> 0, nwant |-> 0]
+NoDoc == [kind |-> "none", q |-> "d3", opn |-> "own", cls |-> "own", lead |-> 0, nblk |-> 0, inlead |-> 0, nsrc |-> 0, nwant |-> 0, hdr |-> "none"]
 Container(k) == k \in {"def", "adef", "class", "iftrue", "ifmain", "try", "with"}
 Transparent(k) == k \in {"iftrue", "try", "with"}
 IsFunc(k) == k \in {"def", "adef"}
 
 -----------------------------------------------------------------------------
 (* Docstring layout -> lines of the docstring literal.                      *)
+(* hdr (freeform layouts): which prose line in front of a group of prompt   *)
+(* lines ends with one of the words that switch that group off in freeform  *)
+(* parsing (Benchmark:, Script:, DisableDoctest:, ...): "none" | "lead"     *)
+(* (the last leading prose line, group 1) | "mid" (the prose line between   *)
+(* group 1 and group 2) | "both".                                           *)
 (* A docstring line is [t, g, j]: t type, g block/group number, j index.    *)
 DL(t, g, j) == [t |-> t, g |-> g, j |-> j]
 RECURSIVE Blocks(_, _)
@@ -48,12 +53,14 @@ Blocks(d, g) ==      \* lines of example group/block g .. nblk
        IN (IF d.kind = "goog"
            THEN <<DL("tag", g, 0)>> \o (IF d.inlead = 1 THEN <<DL("inprose", g, 0)>> ELSE IF d.inlead = 2 THEN <<DL("blank", g, 0)>> ELSE <<>>)
                 \o body \o (IF g < d.nblk THEN <<DL("blank", g, 1), DL("othertag", g, 0), DL("otherbody", g, 0), DL("blank", g, 2)>> ELSE <<>>)
-           ELSE body \o (IF g < d.nblk THEN <<DL("blank", g, 1), DL("prose", g, 0), DL("blank", g, 2)>> ELSE <<>>))
+           ELSE body \o (IF g < d.nblk THEN <<DL("blank", g, 1), DL(IF d.hdr \in {"mid", "both"} THEN "skiphdr" ELSE "prose", g, 0), DL("blank", g, 2)>>
+                                          ELSE <<>>))
           \o Blocks(d, g + 1)
 
 \* content lines between the opening and the closing quotes (the opening line itself is line 0 of the docstring)
 Content(d) ==
-  (IF d.lead > 0 THEN [j \in 1..d.lead |-> DL("prose", 0, j)] \o <<DL("blank", 0, 0)>> ELSE <<>>)
+  (IF d.lead > 0 THEN [j \in 1..d.lead |-> DL(IF j = d.lead /\ d.hdr \in {"lead", "both"} THEN "skiphdr" ELSE "prose", 0, j)] \o <<DL("blank", 0, 0)>>
+   ELSE <<>>)
   \o (IF d.kind \in {"free", "goog"} THEN Blocks(d, 1) ELSE IF d.kind = "text" THEN <<DL("prose", 0, 9)>> ELSE <<>>)
 
 \* the lines of the literal in the file: opening line, content, closing line
@@ -118,8 +125,27 @@ DocCloseLine(fl, x) == LET S == {n \in 1..Len(fl) : fl[n].t = "doc" /\ fl[n].it 
 
 -----------------------------------------------------------------------------
 (* How many doctests a docstring yields under a style, and where they start *)
+\* DECLARATIVE: a group of a freeform layout is switched off by a skip word at the end of the text in front of it, and only
+\* that group - the next text switches collection on again
+HdrBefore(d, g) == d.kind = "free" /\ ((g = 1 /\ d.lead > 0 /\ d.hdr \in {"lead", "both"}) \/ (g = 2 /\ d.hdr \in {"mid", "both"}))
+Kept(d) == {g \in 1..d.nblk : ~HdrBefore(d, g)}
+\* OPERATIONAL: the loop of parse_freeform_docstr_examples over text parts and prompt groups with its `ignoring` flag
+RECURSIVE WalkKept(_, _, _)
+WalkKept(d, g, ignoring) ==
+  IF g > d.nblk THEN {}
+  ELSE LET textBefore == (g = 1 /\ d.lead > 0) \/ g > 1
+           ign0 == IF textBefore /\ "SkipWordSticks" \notin Deviation THEN FALSE ELSE ignoring       \* a text part: stop ignoring
+           ign1 == ign0 \/ HdrBefore(d, g)
+       IN (IF ign1 THEN {} ELSE {g}) \cup WalkKept(d, g + 1, ign1)
+KeptModel(d) == WalkKept(d, 1, FALSE)
+FirstKept(d) == IF KeptModel(d) = {} THEN 1 ELSE CHOOSE g \in KeptModel(d) : \A h \in KeptModel(d) : g <= h
+DeclNExamples(d, style) ==
+  IF d.kind \notin {"free", "goog"} \/ d.nsrc = 0 THEN 0
+  ELSE IF d.kind = "free" THEN (IF Kept(d) = {} \/ style = "google" THEN 0 ELSE 1)
+  ELSE IF style = "freeform" THEN 1 ELSE d.nblk
 NExamples(d, style) ==
   IF d.kind \notin {"free", "goog"} \/ d.nsrc = 0 THEN 0
+  ELSE IF d.kind = "free" /\ KeptModel(d) = {} THEN 0           \* every group switched off: the docstring yields no doctest
   ELSE IF style = "freeform" THEN 1
   ELSE IF d.kind = "goog" THEN d.nblk                     \* google, and auto when blocks exist
   ELSE IF style = "auto" THEN 1 ELSE 0                    \* freeform layout: google finds nothing, auto falls back
@@ -127,11 +153,11 @@ NExamples(d, style) ==
 \* ghost: docstring-relative index of the first prompt of doctest number num (0-based) under the style
 GhostStartIdx(d, style, num) ==
   LET dls == DocLines(d) IN
-  IF style = "freeform" \/ d.kind = "free" THEN FirstIdx(dls, "src", 1) ELSE FirstIdx(dls, "src", num + 1)
+  IF style = "freeform" \/ d.kind = "free" THEN FirstIdx(dls, "src", FirstKept(d)) ELSE FirstIdx(dls, "src", num + 1)
 \* the code's arithmetic: google: line of the tag + 1; freeform: number of lines in front of the first prompt
 ModelStartIdx(d, style, num) ==
   LET dls == DocLines(d) IN
-  IF style = "freeform" \/ d.kind = "free" THEN FirstIdx(dls, "src", 1)
+  IF style = "freeform" \/ d.kind = "free" THEN FirstIdx(dls, "src", FirstKept(d))     \* lines of text and of switched-off groups are counted
   ELSE FirstIdx(dls, "tag", num + 1) + 1
 
 \* the code's recovery of the opening line from the closing line: end line - number of newlines in the
@@ -257,6 +283,10 @@ Spec == Init /\ [][Next]_vars
 
 -----------------------------------------------------------------------------
 (* Invariants *)
+\* C07: every docstring yields the declared number of doctests under every style
+ExamplesAreDecl == pc = "done" =>
+  \A x \in 0..Len(items) : LET d == IF x = 0 THEN moddoc ELSE items[x].doc IN
+     \A st \in Styles : NExamples(d, st) = DeclNExamples(d, st)
 \* C07: the visitor collects exactly the declared inventory
 VisitIsDecl == VisitInventory(items) = DeclInventory(items)
 
